@@ -70,6 +70,8 @@ type HTLC struct {
 	Hash     [32]byte
 	Preimage [32]byte
 	Expiry   uint32
+	// Msg is the update_add_htlc as sent.
+	Msg *lnwire.UpdateAddHTLC
 	// Seq is unique over the case (ids are re-used after a reload drops
 	// unsigned adds).
 	Seq int
